@@ -3,8 +3,15 @@
     search      (C15)  SearchInDump on generated dumps × patterns × options; MODEL = Model.Search with the small regex
                        engine and the scalar text table, SPEC = Spec.Search.expected (first MaxResults matching cells in
                        (database, table, row, column) order)
-    secretscan  (C15)  ScanDumpResult on dumps with a credential-shaped token planted in known cells
+    secretscan  (C15)  ScanDumpResult on dumps with a credential planted in known cells: 13 formats × 4 variants (as is,
+                       glued to a word character left / right, bare secret without its keyword context) × 5 placements ×
+                       5 depths; the detector parameter is a per-case stand-in that the Go handler validates against the
+                       real scanner on every cell text; SPEC = Spec.Search.expectedFindings
+    cellfmt     (C15)  `%v` of a cell (Spec.Search.fmtV) against fmt
+    searchre    (C15)  random full-RE2 patterns: SearchInDump against a Go transcription of the spec (no Lean result)
     searchmut   (C10)  hostile patterns / shapes: must return
+    secretbig   (C10)  one 80 KiB cell: allocation envelope
+  (searchbytes, secretbytes, cellfmtbytes, searchuni, secretedge: Driver/Fam/SearchBytes.lean)
 -/
 import Driver.Family
 import PgVerif.Model.Search
@@ -92,10 +99,10 @@ def showHits : Option (List Hit) → String
   | some hs => joinWith ";" (hs.map showHit)
 
 def modelSearch (d : Dump) (o : Opts) : Option (List Hit) :=
-  (Model.Search.searchInDump Model.SearchRe.litRegex Model.SearchShow.showScalar d o).map (·.map Model.Search.toHit)
+  (Model.Search.searchInDump Model.SearchRe.litRegex Model.SearchShow.searchScalar d o).map (·.map Model.Search.toHit)
 
 def specSearch (d : Dump) (o : Opts) : Option (List Hit) :=
-  expected Model.SearchRe.litRegex Model.SearchShow.showScalar d o
+  expected Model.SearchRe.litRegex Model.SearchShow.searchScalar d o
 
 def mkOpts (pat : Bytes) (cs incl : Bool) (mx : Int) : Opts :=
   { pattern := pat, caseSensitive := cs, includeRow := incl, maxResults := mx }
@@ -132,7 +139,14 @@ def fixedSearch : List (Dump × Bytes × Bool × Bool × Int) :=
     (d2, s2b "nil", false, false, 0), (d2, s2b "^5$", false, true, 0), (d2, s2b ".", false, false, 4),
     (d3, s2b "needle", false, false, 0), (d3, s2b "needle", false, false, 1), (d3, s2b "needle", false, true, 2),
     ([], s2b "x", false, false, 0), ([{ name := s2b "e", tables := [] }], s2b "x", false, false, 1) ] ++
-  Gen.Search.invalidPatterns.flatMap fun p => [(d1, s2b p, false, false, 0), (d1, s2b p, true, true, 1)]
+  (Gen.Search.invalidPatterns.flatMap fun p => [(d1, s2b p, false, false, 0), (d1, s2b p, true, true, 1)]) ++
+  -- numbers decoded to float64 (numeric, float8, JSON numbers) are searched as PostgreSQL prints them (fix search/05):
+  -- 1000000, 1234567.89 positionally; 1e+15 and 1e+21 in exponent notation
+  (let rowF : Row := [(s2b "amount", .f64 0x412e848000000000), (s2b "price", .f64 0x4132d687e3d70a3d), (s2b "big", .f64 0x430c6bf52633fff8),
+                      (s2b "huge", .f64 0x444b1ae4d6e2ef50), (s2b "doc", .obj [(s2b "n", .f64 0x412e848000000000), (s2b "m", .arr [.f64 0xc12e848000000000])])]
+   let dF : Dump := [{ name := s2b "db", tables := [{ name := s2b "acct", columns := [s2b "amount", s2b "price", s2b "big", s2b "huge", s2b "doc"], rows := [rowF] }] }]
+   [ (dF, s2b "^1000000$", false, false, 0), (dF, s2b "1000000", false, true, 0), (dF, s2b "1234567.89", false, false, 0), (dF, s2b "e", true, false, 0),
+     (dF, s2b "^999999999999999$", false, false, 0), (dF, s2b "^-1000000$", false, false, 0), (dF, s2b "^1e", false, false, 0) ])
 
 def searchGen (seed idx size : Nat) : Case :=
   let (d, pat, cs, incl, mx, kind) : Dump × Bytes × Bool × Bool × Int × String :=
@@ -163,7 +177,7 @@ def searchGen (seed idx size : Nat) : Case :=
   let all := match specSearch d (mkOpts pat cs false 0) with | some hs => hs.length | none => 0
   let got := match s with | some hs => hs.length | none => 0
   let multi := d.any fun db => db.tables.any fun t => t.rows.any fun r =>
-    (r.filter fun kv => cellMatches ((Model.SearchRe.litRegex.compile (effPattern o)).getD fun _ => false) Model.SearchShow.showScalar kv.2).length > 1
+    (r.filter fun kv => cellMatches ((Model.SearchRe.litRegex.compile (effPattern o)).getD fun _ => false) Model.SearchShow.searchScalar kv.2).length > 1
   let tags := [s!"pat={kind}", s!"cs={b2s cs}", s!"row={b2s incl}",
                (if s.isNone then "res=error" else if all == 0 then "hits=0" else if all == 1 then "hits=1" else if all ≤ 5 then "hits=2-5" else "hits>5"),
                (if mx < 0 then "max<0" else if mx == 0 then "max=0" else if mx.toNat < all then "max<N" else if mx.toNat == all then "max=N" else "max>N"),
@@ -176,8 +190,7 @@ def search : Family := { name := "search", gen := searchGen, eval := searchEval,
 
 /-! ### secret scan -/
 
-/-- the stand-in detector of the executable model: finds the planted token wherever it occurs, nothing else
-(the Go handler checks this hypothesis against the real `ScanString` on every cell text of the case) -/
+/-- the stand-in detector of family `secretbig`: finds the planted token wherever it occurs, nothing else -/
 def tokDetector (tok : Bytes) (ctx : Nat := 0) : Detector :=
   { keywords := [tok.take 4], fromData := fun s => some (if occursIn tok s then [{ detector := s2b "tok", raw := tok.drop ctx }] else []) }
 
@@ -186,27 +199,43 @@ def showCoords (fs : List (Bytes × Bytes × Nat × Bytes)) : String :=
   let strs := fs.map fun (db, t, r, c) => s!"{hexOf db}/{hexOf t}/{r}/{hexOf c}"
   joinWith ";" strs.eraseDups
 
-def modelSecret (tok : Bytes) (d : Dump) (ctx : Nat := 0) : String :=
-  showCoords ((Model.Secrets.scanDumpResult [tokDetector tok ctx] Model.SearchShow.showScalar d).filterMap fun f =>
-    if f.raw == tok.drop ctx then some (f.db, f.table, f.row, f.col) else none)
+def modelSecret (tok : Bytes) (d : Dump) : String :=
+  showCoords ((Model.Secrets.scanDumpResult [tokDetector tok] Model.SearchShow.showScalar d).filterMap fun f =>
+    if f.raw == tok then some (f.db, f.table, f.row, f.col) else none)
 
-/-- spec: exactly the cells whose text contains the token (every planted cell text is ≥ 8 bytes long), in
-(database, table, row, column) order -/
 def specSecret (tok : Bytes) (d : Dump) : String :=
   showCoords (d.flatMap fun (db : Database) => db.tables.flatMap fun (t : Table) => t.rows.zipIdx.flatMap fun ((row : Row), i) =>
     (rowCells t.columns row).filterMap fun (c, v) =>
       if occursIn tok (fmtV Model.SearchShow.showScalar v) then some (db.name, t.name, i, c) else none)
 
-/-- args: token(hex), dump -/
+/-- the instance of the detector parameter used by the families `secretscan` / `secretbytes`: the detector's real
+pre-filter keyword; on a text that holds the planted text (`needle`) it reports `raw` (nothing when `raw = none`), on any
+other text nothing.  It is a statement about the texts of ONE case — the Go handler checks it against the real scanner
+on every cell text of the case, which is exactly the per-cell hypothesis of `Props.C15.C15_secret`. -/
+def standIn (needle : Bytes) (raw : Option Bytes) (keyword : Bytes) : Detector :=
+  { keywords := [keyword],
+    fromData := fun s => some (if occursIn needle s then (match raw with | some r => [{ detector := s2b "tok", raw := r }] | none => []) else []) }
+
+/-- findings in the order reported: coordinates=raw, every pair once -/
+def showFindings (fs : List Finding) : String :=
+  joinWith ";" ((fs.map fun f => s!"{hexOf f.db}/{hexOf f.table}/{f.row}/{hexOf f.col}={hexOf f.raw}").eraseDups)
+
+def modelSecretDet (det : Detector) (d : Dump) : String :=
+  showFindings (Model.Secrets.scanDumpResult [det] Model.SearchShow.showScalar d)
+
+/-- spec: `Spec.Search.expectedFindings` — per cell (≥ 8 bytes of text), what the detector set reports on that cell's text -/
+def specSecretDet (det : Detector) (d : Dump) : String :=
+  showFindings (expectedFindings [det] Model.SearchShow.showScalar d)
+
+def rawArg (raw : Option Bytes) : String := match raw with | some r => hexOf r | none => "-"
+def argRaw (s : String) : Option Bytes := if s == "-" then none else some (unhex s)
+
+/-- args: needle(hex), dump, raw(hex or -), keyword(hex) -/
 def secretEval (args : List String) : String :=
   match args with
-  | [tok, dump] =>
+  | [needle, dump, raw, kw] =>
     match (SearchParse.parseVal dump).bind SearchParse.toDump with
-    | some d => modelSecret (unhex tok) d
-    | none => "bad-args"
-  | [tok, dump, ctx] =>
-    match (SearchParse.parseVal dump).bind SearchParse.toDump with
-    | some d => modelSecret (unhex tok) d ctx.toNat!
+    | some d => modelSecretDet (standIn (unhex needle) (argRaw raw) (unhex kw)) d
     | none => "bad-args"
   | _ => "bad-args"
 
@@ -241,25 +270,50 @@ def cellsOf (d : Dump) : List (Nat × Nat × Nat × Bytes) :=
   d.zipIdx.flatMap fun ((db : Database), di) => db.tables.zipIdx.flatMap fun ((t : Table), ti) =>
     t.rows.zipIdx.flatMap fun ((r : Row), ri) => r.map fun kv => (di, ti, ri, kv.1)
 
+def kfKeywordOutside : String := "kf:C15-secret-keyword-outside-cell"
+
+/-- the witness of finding C15-secret-keyword-outside-cell: a Heroku-format API key alone in the column
+`heroku_api_key` — the keyword is in the column name, not in the cell, so the scan reports nothing -/
+def witnessDump (secret : Bytes) : Dump :=
+  let row : Row := [(s2b "id", .int 1), (s2b "heroku_api_key", .str secret), (s2b "note", .str (s2b "deploy key, rotate yearly"))]
+  let t : Table := { name := s2b "integrations", columns := [s2b "id", s2b "heroku_api_key", s2b "note"], rows := [row] }
+  [{ name := s2b "shop", tables := [t] }]
+
+def secretCase (p : Gen.Search.Planted) (d : Dump) (tags : List String) : Case :=
+  let det := standIn p.needle p.raw p.keyword
+  -- in the class of the finding the property's sentence is the spec: the planted cells are reported (a scan that took the
+  -- keyword context from outside the cell — no keyword requirement on the cell's own text — would report them)
+  let specDet : Detector := if p.kf then { det with keywords := [] } else det
+  { tags := tags ++ (if p.kf then [kfKeywordOutside] else []) ++ ["nt"],
+    model := modelSecretDet det d, spec := specSecretDet specDet d,
+    args := [hexOf p.needle, (SearchParse.ofDump d).canon, rawArg p.raw, hexOf p.keyword] }
+
 def secretGen (seed idx size : Nat) : Case :=
   let kinds := Gen.Search.allTokenKinds
+  if idx == 0 then
+    let p : Gen.Search.Planted := (Gen.Search.genPlanted "heroku1" 3).run' (Prng.ofSeed seed idx)
+    secretCase p (witnessDump p.secret) ["kind=heroku1", "variant=3", "reported=nothing(keyword-outside)", "place=column", "depth=0", "planted=1"]
+  else
   let kind := kinds.getD (idx % kinds.length) "stripe"
-  let how := (idx / kinds.length) % 5
-  let depth := (idx / (kinds.length * 5)) % 5
-  let (tok, ctx, d, nplant) := (do
-      let (tok, ctx) ← Gen.Search.genTokenCtx kind
+  let variant := (idx / kinds.length) % 4
+  let how := (idx / (kinds.length * 4)) % 5
+  let depth := (idx / (kinds.length * 20)) % 5
+  let (p, d, nplant) : Gen.Search.Planted × Dump × Nat := (do
+      let p ← Gen.Search.genPlanted kind variant
       let d0 ← Gen.Search.genDump size
       -- make sure there is at least one table with a row to plant into
       let d0 : Dump := if hasRow d0 then d0 else d0 ++ [fallbackDb]
       let cells := cellsOf d0
       let np ← Gen.oneOf [1, 1, 1, 2, 3]
       let chosen := (← Gen.shuffle cells).take np
-      let d := plantAll tok how depth chosen d0
-      return (tok, ctx, d, chosen.length)).run' (Prng.ofSeed seed idx)
-  { tags := [s!"kind={kind}", s!"place={how}", s!"depth={depth}", s!"planted={nplant}", "nt"],
-    model := modelSecret tok d ctx, spec := specSecret tok d, args := [hexOf tok, (SearchParse.ofDump d).canon, toString ctx] }
+      let d := plantAll p.needle how depth chosen d0
+      return (p, d, chosen.length)).run' (Prng.ofSeed seed idx)
+  let outcome := match p.raw with
+    | none => "reported=nothing"
+    | some r => if p.kf then "reported=nothing(keyword-outside)" else if r == p.secret then "reported=secret" else "reported=grown"
+  secretCase p d [s!"kind={kind}", s!"variant={variant}", outcome, s!"place={how}", s!"depth={depth}", s!"planted={nplant}"]
 
-def secretscan : Family := { name := "secretscan", gen := secretGen, eval := secretEval, fixed := 150 }
+def secretscan : Family := { name := "secretscan", gen := secretGen, eval := secretEval, fixed := 260 }
 
 /-! ### text of a cell as the secret scan sees it (`%v`) -/
 
